@@ -35,7 +35,7 @@ ASSUMPTIONS = [
     "tabular learners keep no transitions; their use of (o,a,r,o',terminated) is decided by prefix differencing in C14's history check, which this check re-runs for its own scripts",
 ]
 SIG = "C01|{}|{}"
-BUDGET_S = {"quick": 540, "thorough": 3000}
+BUDGET_S = {"quick": 540, "thorough": 6000}
 
 ROUTINES = D.OFF_POLICY
 
